@@ -15,7 +15,7 @@ from common import args, Report
 a = args()
 DEPTH = 2
 NENT = 3 if a.tier == 'quick' else 4
-R = Report('all mappings with <= %d entries over {plain key, merge of mapping, merge of list of <= 2 mappings, quoted <<, = key}, sources nested <= %d, shared sources reused twice' % (NENT, DEPTH))
+R = Report('all mappings with <= %d entries over {plain key, merge of mapping, merge of list of <= 2 mappings, quoted <<, = key}, sources nested <= %d, shared sources reused twice; every inner mapping node re-constructed after its user' % (NENT, DEPTH))
 Y = 'tag:yaml.org,2002:'
 
 
@@ -120,9 +120,22 @@ def construct(node):
     return c.construct_mapping(node, deep=True)
 
 
+def map_nodes(node, acc):
+    if isinstance(node, MappingNode):
+        acc.append(node)
+        for k, v in node.value:
+            map_nodes(k, acc); map_nodes(v, acc)
+    elif isinstance(node, SequenceNode):
+        for x in node.value:
+            map_nodes(x, acc)
+    return acc
+
+
 def check(label, node):
     R.cases += 1
     spec_before = snap(node)
+    # every mapping node of the graph (merge sources included) with what it denoted BEFORE anything was flattened
+    inner = [(mn, snap(mn)) for mn in map_nodes(node, [])[1:]]
     try:
         want = mapping_of(spec_before)
     except ValueError:
@@ -141,6 +154,22 @@ def check(label, node):
         if list(sq.value) != before or any(x is not y for x, y in zip(sq.value, before)):
             R.fail('sequence-nodes-never-written', {'case': label, 'node': repr(spec_before)[:300]}, 'a merge list was rewritten in place')
             break
+    # "the same for every reuse of a shared merge source": flattening the outer mapping rewrites its sources in place; whatever it
+    # did to them, each of them must still denote the mapping it denoted before (it may be merged again under another anchor use)
+    if got is not ConstructorError:
+        for mn, before in inner:
+            try:
+                want_mn = mapping_of(before)
+            except ValueError:
+                continue
+            try:
+                got_mn = construct(mn)
+            except Exception as e:
+                got_mn = '%s: %s' % (type(e).__name__, e)
+            if got_mn != want_mn:
+                R.fail('merge-source-denotes-the-same-mapping-after-use', {'case': label, 'node': repr(spec_before)[:300], 'source': repr(before)[:200]},
+                       'after the outer mapping was constructed the source constructs as %r, before it denoted %r' % (got_mn, want_mn))
+                break
 
 
 gens = gen_map(DEPTH)
